@@ -13,10 +13,17 @@ import fcntl, hashlib, json, os, re, subprocess, sys, time, shutil
 VERIF = os.path.dirname(os.path.dirname(os.path.abspath(__file__)))
 COQ = os.path.join(VERIF, "coq")
 HARNESS = os.path.join(VERIF, "harness")
-WORK = os.path.join(VERIF, "work")
-EVID = os.path.join(VERIF, "evidence")
-REPLAYS = os.path.join(VERIF, "work", "replays")
-REPO = "/repo"
+# VERIF_REPO (development aid only): run the checks against a scratch copy of
+# the repository instead of /repo; work files and evidence then go to a
+# separate directory so that registered runs are not disturbed.
+REPO = os.environ.get("VERIF_REPO", "/repo").rstrip("/")
+if REPO == "/repo":
+    WORK = os.path.join(VERIF, "work")
+    EVID = os.path.join(VERIF, "evidence")
+else:
+    WORK = os.path.join(VERIF, "work", "alt_" + hashlib.sha1(REPO.encode()).hexdigest()[:8])
+    EVID = os.path.join(WORK, "evidence")
+REPLAYS = os.path.join(WORK, "replays")
 
 GOENV = dict(os.environ, GOFLAGS="-mod=mod", GOPROXY="off", GOSUMDB="off",
              GOTOOLCHAIN="local", CGO_ENABLED="0")
@@ -202,17 +209,26 @@ def copt(x):
 
 # ---------------------------------------------------------------- Go side
 
-def build_harness():
+def build_harness(cmd):
+    """go build ./cmd/<cmd> of the harness module against /repo's working tree."""
     with Lock("go"):
         os.makedirs(os.path.join(WORK, "bin"), exist_ok=True)
-        shutil.copyfile(os.path.join(REPO, "go.sum"), os.path.join(HARNESS, "go.sum"))
-        rc, out, err = sh(["go", "build", "-tags", "verif", "-o", os.path.join(WORK, "bin", "vh"), "./cmd/vh"],
+        modflag = []
+        if REPO == "/repo":
+            shutil.copyfile(os.path.join(REPO, "go.sum"), os.path.join(HARNESS, "go.sum"))
+        else:
+            alt = os.path.join(WORK, "alt.mod")
+            txt = open(os.path.join(HARNESS, "go.mod")).read().replace("=> /repo", "=> " + REPO)
+            open(alt, "w").write(txt)
+            shutil.copyfile(os.path.join(REPO, "go.sum"), os.path.join(WORK, "alt.sum"))
+            modflag = ["-modfile=" + alt]
+        rc, out, err = sh(["go", "build"] + modflag + ["-tags", "verif", "-o", os.path.join(WORK, "bin", cmd), "./cmd/" + cmd],
                           cwd=HARNESS, env=GOENV, timeout=1800)
         return rc == 0, out + err
 
 
 def run_vh(args, timeout=3000):
-    rc, out, err = sh([os.path.join(WORK, "bin", "vh")] + args, cwd=WORK, env=GOENV, timeout=timeout)
+    rc, out, err = sh([os.path.join(WORK, "bin", args[0])] + args[1:], cwd=WORK, env=GOENV, timeout=timeout)
     cases = []
     for line in out.splitlines():
         line = line.strip()
@@ -301,7 +317,7 @@ class Check:
 
     def gen_args(self, tier, seed):
         n = self.N_QUICK if tier == "quick" else self.N_THOROUGH
-        return [[self.vh_cmd(), "-n", str(n), "-seed", str(seed)]]
+        return [[self.vh_cmd(), "-n", str(n), "-seed", str(seed), "-tier", tier]]
 
     def nontrivial(self, case):
         return True
@@ -345,7 +361,7 @@ class Check:
             problems.append("forbidden construct in Coq sources: " + "; ".join(audit[:5]))
 
         # Leg B
-        okh, hlog = build_harness()
+        okh, hlog = build_harness(self.vh_cmd())
         cases = []
         if not okh:
             problems.append("harness does not build against /repo: " + hlog[-3000:])
